@@ -1218,7 +1218,14 @@ package server
 // restart after the log was compacted resumes at index 1, which is no longer in the log
 //@ ghost var activityIndexRestored bool
 //@ ghost var recoveryEndScheduled bool
-//@ func (*Server).Restore serves C18, C06
+// (C12: a group rebuilt from a snapshot balances each member over the partitions of the streams it subscribes to, as the
+//  metadata holds them at that moment - so every stream of the snapshot must be back before the first group is rebuilt;
+//  a group rebuilt while the metadata has no streams yet keeps its members and hands out nothing)
+//@ ghost var groupRebuilt bool
+//@ func (*Server).Restore serves C18, C06, C12
+//@   ghost at entry: ghost.groupRebuilt := false
+//@   ghost after call applyCreateConsumerGroup: ghost.groupRebuilt := true
+//@   call applyCreateStream requires [C12:the-streams-are-back-before-any-group-is-rebuilt] !ghost.groupRebuilt
 //@   ghost at entry: ghost.recoveryEndScheduled := false
 //@   ghost after call finishedRecovery: ghost.recoveryEndScheduled := true
 //@   call applyCreateStream requires [C06:restored-partitions-are-not-left-in-recovery-mode] !arg2 || ghost.recoveryEndScheduled
